@@ -381,6 +381,18 @@ def scenarios():
             rq(smone + "/submodel-elements/<id_short_path:id_shorts>", "GET", sm=b64("urn:a"), path="f2")]
     for backed in (False, True):
         out.append((f"same-file-name-{'file' if backed else 'mem'}", backed, [dict(r) for r in reqs], False))
+    # PUT of an element of a sub-/superclass of the stored element's class: 400 and nothing changed
+    el = smone + "/submodel-elements/<id_short_path:id_shorts>"
+    sm = {"k": "sm", "id": "urn:a", "ids": "S", "tok": 1, "quals": [], "elems": [REL("r1"), AREL("r2"), P("p1")]}
+    reqs = [rq("/submodels", "POST", ("val", "json", sm)),
+            rq(el, "PUT", ("val", "json", dict(AREL("r1", 9), k="elem")), sm=b64("urn:a"), path="r1", cls="put-subclass"),
+            rq(el, "GET", sm=b64("urn:a"), path="r1"),
+            rq(el, "PUT", ("val", "xml", dict(REL("r2", 9), k="elem")), sm=b64("urn:a"), path="r2", cls="put-superclass"),
+            rq(el, "GET", sm=b64("urn:a"), path="r2"),
+            rq(el, "PUT", ("val", "json", dict(REL("r1", 7), k="elem")), sm=b64("urn:a"), path="r1", cls="put-same-class"),
+            rq(el, "GET", sm=b64("urn:a"), path="r1")]
+    for backed in (False, True):
+        out.append((f"put-subclass-{'file' if backed else 'mem'}", backed, [dict(r) for r in reqs], False))
     # POST of an item into a SubmodelElementList on a backed store (TypeError while building the Location)
     sm = {"k": "sm", "id": "urn:a", "ids": "S", "tok": 1, "quals": [], "elems": [L("l1", [])]}
     reqs = [rq("/submodels", "POST", ("val", "json", sm)),
